@@ -139,6 +139,20 @@ int run_cycle(const Args& a) {
             }
             for (std::size_t i = 0; i + 1 < toks.size(); ++i) { yk::leave(toks[i]); }
             if (!toks.empty()) { rep.count("cycles_ending_with_open_session"); }
+            if (!toks.empty() && r.chance(2, 3)) {
+                // the abandoned session retires a value (and sometimes a node) through ITS slot and never leaves: the GC
+                // thread can only park that element (too young for the open session), so at fin() the slot's queues are
+                // empty and its look-ahead cache is not (seeded C16-d)
+                (void) yk::create_storage("abandoned");
+                std::string big(64, 'a');
+                yput(toks.back(), "abandoned", "ab-key", big);
+                if (r.chance(1, 2)) {
+                    yput(toks.back(), "abandoned", "ab-key", big + "2");
+                } else {
+                    (void) yk::remove(toks.back(), "abandoned", "ab-key");
+                }
+                rep.count("cycles_ending_with_an_open_session_that_retired_memory");
+            }
             if (!toks.empty() && r.chance(1, 2)) {
                 // the abandoned session gets old: the epoch advances (or tries to) while it is open, then fin() is called
                 uint64_t e0 = yk::epoch_management::get_epoch();
